@@ -188,6 +188,35 @@ func c03(r *Report) {
 	})
 
 	r.Guard("C03.R2", "a failed or partial response write ends the connection", func() {
+		// once the response has been handed to the client connection the exchange tells
+		// the loop only "go on" (nil) or "close" (errClose): an upstream error that was
+		// already answered with a 502 must not reach the loop, where a closeable one
+		// (EOF, timeout) would end a connection that is still in step
+		{
+			gh := G(handle)
+			ws := plainCalls(handle, nResWrite)
+			for k, ret := range returns(handle) {
+				after := false
+				for _, wc := range ws {
+					if gh.Before(wc, ret) {
+						after = true
+					}
+				}
+				if !after {
+					continue
+				}
+				bad := ""
+				for _, v := range retVals(ret, 0) {
+					for _, l := range resolveAll(v) {
+						if c := errClass(l); c != "nil" && c != "global:errClose" {
+							bad = c
+						}
+					}
+				}
+				r.Decide("flow", fmt.Sprintf("(*M.Proxy).handle: exit #%d after the response write reports nil or errClose only", k+1), bad == "", "the value returned after the write resolves to nil / errClose", "after the response has been written the exchange can return "+bad+": an upstream failure already answered with a 502 reaches the connection loop, and if it is closeable (EOF, timeout) the client connection is dropped", ret.Pos())
+			}
+		}
+
 		for _, name := range []string{nResWrite, nFlush} {
 			cs := plainCalls(handle, name)
 			if len(cs) == 0 {
